@@ -565,9 +565,8 @@ class ChemicalIndexer(Indexer):
                     sc_data.extend(idata.rows)
                 else:
                     idata = idata.sum(0)
-                    sc_data.append(idata)
                     other_data.append(
-                        (i, *index_overlap(chemicals, ichemicals, idata.nonzero_keys()))
+                        (idata, *index_overlap(chemicals, ichemicals, idata.nonzero_keys()))
                     )
             elif ichemicals is chemicals:
                 sc_data.append(idata)
